@@ -96,3 +96,24 @@ SOLVER_FLAGS = {
     'twopl': ('-twopl', 'store_true', None, False), 'pc': ('-pc', 'store_true', None, False),
     'stab': ('-stab', 'store_true', None, False), 'bruteforce': ('-bf', 'store_true', None, False),
 }
+
+# ---- C07: what brute-force mode prints (property statement) ------------------------------------------
+# label -> (tier, statistic helper of Model, order).  tier 'size' = the maximum size itself; 'maxsize' = optimum over
+# maximum-size valid matchings; 'all' = optimum over all valid matchings.  order: 'lt' smaller is better (tuples
+# lexicographic), 'gen' more generous profile is better, 'gre' more greedy profile is better.
+BRUTE_FORCE = {
+    'optimal_size':               ('size', None, 'gt'),
+    'optimal_maxsizemincost':     ('maxsize', '_get_cost', 'lt'),
+    'optimal_maxsizemindegree':   ('maxsize', '_get_degree', 'lt'),
+    'optimal_maxsizeminsqcost':   ('maxsize', '_get_cost_sq', 'lt'),
+    'optimal_generousmaxprofile': ('maxsize', '_get_profile', 'gen'),
+    'optimal_greedymaxprofile':   ('maxsize', '_get_profile', 'gre'),
+    'optimal_greedyprofile':      ('all', '_get_profile', 'gre'),
+    'optimal_max_lec_abs_diff':   ('all', '_get_max_lec_abs_diff', 'lt'),
+    'optimal_sum_lec_abs_diff':   ('all', '_get_sum_lec_abs_diff', 'lt'),
+}
+# validity of an assignment (definition of a valid matching, with project closure): rejected-when predicates
+BF_VALID = {
+    'P': lambda c, lq, uq, pc: not ((pc and c == 0) or (lq <= c <= uq)),
+    'L': lambda c, lq, uq, pc: not (lq <= c <= uq),
+}
